@@ -450,7 +450,7 @@ func c17legacyinfo(c *an.Ctx) {
 			if !ok {
 				return
 			}
-			switch an.FieldOf(fa).Name() {
+			switch an.FName(an.FieldOf(fa)) {
 			case "HTTPPort":
 				for _, o := range an.Origins(st.Val) {
 					if ex, ok := o.(*ssa.Extract); ok {
